@@ -27,6 +27,11 @@ CONFIGS = {
     # two clients, any interleaving with the applier, tight capacity, buffer of one
     "write3": {"MaxOps": 3},
     "write4": {"MaxOps": 4},
+    # deeper, with the VIEW that hides history variables: only the invariants that do not read history are checked
+    "write5_view": {"MaxOps": 5, "_view": "ImplOnlyView", "_inv": ["TypeOK", "C03_UsedIsSum", "C13_Agree", "C13_Indexed", "C08_NoHang"]},
+    "handoff5_view": {"Keys": [1], "Hashes": [1], "Clients": [1, 2, 3], "MaxOps": 5, "Ops": ["set", "del", "wait", "clear"],
+                      "Costs": [1], "InitMaxCost": 2, "MaxCosts": [2], "_view": "ImplOnlyView",
+                      "_inv": ["TypeOK", "C03_UsedIsSum", "C13_Agree", "C08_NoHang"]},
     # sampling / admission: one client, three keys, costs and capacities around the fit boundary
     "cost4": {"Keys": [1, 2, 3], "Hashes": [1, 2, 3], "Clients": [1], "MaxOps": 4, "Ops": ["set", "del", "get", "maxcost"],
               "BufCap": 2, "Costs": [1, 2, 3], "InitMaxCost": 3, "MaxCosts": [3, 4], "MaxGets": 2},
@@ -98,7 +103,7 @@ PLAN = {
             "sim": [("sim_coll", 400, 6000, 60), ("sim_str", 300, 4000, 60)]},
     "C02": {"mc": {"quick": ["write3"], "thorough": ["write4", "handoff4"]},
             "sim": [("sim_write", 400, 6000, 60), ("sim_ttl", 300, 4000, 60), ("sim_handoff", 200, 3000, 60)]},
-    "C03": {"mc": {"quick": ["cost4", "costfn"], "thorough": ["cost5", "costfn"]},
+    "C03": {"mc": {"quick": ["cost4", "costfn"], "thorough": ["cost5", "costfn", "write5_view"]},
             "sim": [("sim_cost", 600, 8000, 70), ("sim_write", 200, 3000, 60)]},
     "C04": {"mc": {"quick": ["write3", "handoff3", "refuse4"], "thorough": ["write4", "handoff4", "refuse4", "ttl3"]},
             "sim": [("sim_write", 300, 4000, 60), ("sim_handoff", 300, 4000, 60), ("sim_refuse", 200, 3000, 60), ("sim_ttl", 200, 3000, 60)]},
@@ -108,11 +113,11 @@ PLAN = {
             "sim": [("sim_ref", 800, 12000, 70)]},
     "C07": {"mc": {"quick": ["ttl2"], "thorough": ["ttl3", "ref5"]},
             "sim": [("sim_ttl", 500, 8000, 60), ("sim_ref", 400, 6000, 70)]},
-    "C08": {"mc": {"quick": ["handoff3"], "thorough": ["handoff4"]}, "live": {"quick": ["handoff3"], "thorough": ["handoff3", "live4"]},
+    "C08": {"mc": {"quick": ["handoff3"], "thorough": ["handoff4", "handoff5_view"]}, "live": {"quick": ["handoff3"], "thorough": ["handoff3", "live4"]},
             "sim": [("sim_handoff", 400, 6000, 60), ("sim_close", 200, 3000, 60)], "free": (2, 30), "race": True, "ring": True},
     "C09": {"mc": {"quick": ["cost4"], "thorough": ["cost5"]},
             "sim": [("sim_cost", 800, 12000, 70)]},
-    "C13": {"mc": {"quick": ["write3", "ttl2"], "thorough": ["write4", "ttl3", "handoff4"]},
+    "C13": {"mc": {"quick": ["write3", "ttl2"], "thorough": ["write4", "ttl3", "handoff4", "write5_view"]},
             "sim": [("sim_write", 300, 4000, 60), ("sim_ttl", 300, 4000, 60), ("sim_handoff", 200, 3000, 60)]},
     "C14": {"mc": {"quick": ["ttl2"], "thorough": ["ttl3"]},
             "sim": [("sim_ttl", 800, 12000, 60)]},
@@ -218,9 +223,10 @@ def model_check(ctx, pid, names):
     summ = []
     for name in names:
         consts = dict(CONFIGS[name])
-        inv = INV_FOR.get(name, ALL_INV)
+        view = consts.pop("_view", None)
+        inv = consts.pop("_inv", None) or INV_FOR.get(name, ALL_INV)
         for round_ in range(5):
-            cfg, c = cachelib.render_cfg(consts, invariants=inv)
+            cfg, c = cachelib.render_cfg(consts, invariants=inv, view=view)
             r = vlib.tlc(ctx, cachelib.SPEC_FILES, "MCRistretto", cfg, name="mc-%s-%d" % (name, round_),
                          timeout=ctx.pick(600, 3000))
             summ.append({"config": name, "toggles": {k: c[k] for k in ("FixZero", "FixAtomic", "FixLate")},
